@@ -645,8 +645,9 @@ Proof.
   replace (dyear d <? 0) with false by blia. reflexivity.
 Qed.
 
-(* BC years print as "<n> BC"; only the year i32::MIN cannot be negated *)
-Lemma show_date_bc_ok : forall ck d, i32_min < dyear d < 0 -> valid d ->
+(* BC years print as "<n> BC" -- including the year i32::MIN since the
+   unsigned_abs() repair *)
+Lemma show_date_bc_ok : forall ck d, i32_min <= dyear d < 0 -> valid d ->
   exists w, day_of_week ck d = Ok w /\ dow_num w = rdd d mod 7 /\
     show_date ck d = Ok (dow_name w ++ B", " ++ Z_decimal (dday d) ++ B" " ++
                          month_name (dmonth d) ++ B" " ++ Z_decimal (- dyear d) ++ B" BC").
@@ -656,9 +657,5 @@ Proof.
   destruct (day_of_week_spec ck d W0 V) as [w [W E]].
   exists w. split; [exact W|]. split; [exact E|].
   unfold show_date. rewrite W. cbn [bind]. unfold show_year.
-  replace (dyear d <? 0) with true by blia.
-  rewrite i32_op_ok by (unfold i32_min, i32_max in *; blia). reflexivity.
+  replace (dyear d <? 0) with true by blia. reflexivity.
 Qed.
-
-Lemma show_date_min_year_panics : show_date true min_date = Panic 7.
-Proof. reflexivity. Qed.
